@@ -13,6 +13,7 @@
   All statements are over *all* byte strings / all values.
 -/
 import IgrisModel.C18.Lemmas
+import IgrisModel.C18.More
 namespace Igris.C18
 open Igris.Proto Spec
 
@@ -311,5 +312,242 @@ theorem rfc4648_test_vectors :
     base64 ("fooba".toList.map ch) = "Zm9vYmE=".toList.map ch ∧
     base64 ("foobar".toList.map ch) = "Zm9vYmFy".toList.map ch ∧
     base64url [0xfb#8, 0xff#8] = "-_8=".toList.map ch := by decide +kernel
+
+/-! # Extension: `hex2half` on every character, case-insensitive decoders,
+decoders on arbitrary text, memory safety -/
+
+/-! ## hex2half / half2hex / hex2byte -/
+
+/-- `hex2half ∘ half2hex = id` on the sixteen nibble values -/
+theorem hex2half_half2hex (n : Byte) (h : n.toNat < 16) : hex2half (half2hex n) = n :=
+  hex2half_half2hex' n h
+
+example : (0x0b#8 : Byte).toNat < 16 := by decide
+
+/-- `hex2half` accepts both cases: on `0-9`, `A-F`, `a-f` it returns the digit value -/
+theorem hex2half_digit (c : Byte) (v : Nat) (h : hexVal c = some v) : (hex2half c).toNat = v :=
+  hex2half_hexVal c v h
+
+example : hexVal 0x61#8 = some 10 ∧ hexVal 0x46#8 = some 15 ∧ hexVal 0x39#8 = some 9 ∧ hexVal 0x47#8 = none := by decide
+
+/-- what `hex2half` returns for EVERY `char` value (plain `char` signed: the
+values `0x80..0xFF` are negative and take the `c <= '9'` branch) -/
+theorem hex2half_exact (c : Byte) : (hex2half c).toNat =
+    if 128 ≤ c.toNat ∨ c.toNat ≤ 0x39 then (c.toNat + 256 - 48) % 256
+    else if 0x61 ≤ c.toNat then c.toNat - 87 else c.toNat - 55 := hex2half_exact' c
+
+/-- the characters that are silently taken for a digit (`hex2half c < 16`):
+the 22 hex digits and the seven characters `:;<=>?@` (values 3..9) -/
+theorem hex2half_lt16_iff (c : Byte) :
+    (hex2half c).toNat < 16 ↔ ((hexVal c).isSome ∨ (0x3A ≤ c.toNat ∧ c.toNat ≤ 0x40)) := by
+  rw [hex2half_lt16']
+
+/-- every letter has the value of its other case (also outside `A-F`) -/
+theorem hex2half_caseInsensitive (c : Byte) :
+    hex2half (asciiLower c) = hex2half c ∧ hex2half (asciiUpper c) = hex2half c :=
+  ⟨hex2half_lower c, hex2half_upper c⟩
+
+/-- `hex2byte` on two hex digits of either case = `16·hi + lo` -/
+theorem hex2byte_eq_spec (hi lo : Byte) (h1 : (hexVal hi).isSome) (h2 : (hexVal lo).isSome) :
+    hex2byte hi lo = BitVec.ofNat 8 (16 * (hexVal hi).getD 0 + (hexVal lo).getD 0) :=
+  hex2byte_spec hi lo h1 h2
+
+example : (hexVal 0x63#8).isSome ∧ (hexVal 0x37#8).isSome ∧ hex2byte 0x63#8 0x37#8 = 0xC7#8 := by decide
+
+/-! ## decoders accept lower-case text as the same bytes -/
+
+/-- `hexascii_decode(lower(s)) = hexascii_decode(s)` for EVERY text -/
+theorem hexDecode_lower (s : List Byte) : hexDecode (s.map asciiLower) = hexDecode s := by
+  rw [hexDecode_eq, hexDecode_eq, decPairs_lower]
+
+theorem hexDecodeStr_lower (s : List Byte) : hexDecodeStr (s.map asciiLower) = hexDecodeStr s := by
+  simp only [hexDecodeStr, hexDecode_lower, List.length_map]
+
+/-- on every text of hex digits of either case the decoder is the reference
+parse (two digits per byte, an odd last character unused) -/
+theorem hexDecode_eq_spec (s : List Byte) (hc : ∀ c ∈ s, (hexVal c).isSome) : hexDecode s = bytesOfHex s := by
+  rw [hexDecode_eq, decPairs_spec s hc]
+
+example : (∀ c ∈ [0x61#8, 0x42#8, 0x33#8], (hexVal c).isSome) ∧ hexDecode [0x61#8, 0x42#8, 0x33#8] = [0xAB#8] := by decide
+
+/-- odd length: the last character is not used at all -/
+theorem hexDecode_odd (s : List Byte) (c : Byte) (h : s.length % 2 = 0) : hexDecode (s ++ [c]) = hexDecode s := by
+  rw [hexDecode_eq, hexDecode_eq, decPairs_snoc_even s c h]
+
+example : ([0x41#8, 0x42#8] : List Byte).length % 2 = 0 := by decide
+
+theorem hexToUint8_lower (t : List Byte) : hexToUint8 (t.map asciiLower) = hexToUint8 t := by
+  simp only [hexToUint8, hexAt_lower]
+theorem hexToUint16_lower (t : List Byte) : hexToUint16 (t.map asciiLower) = hexToUint16 t := by
+  simp only [hexToUint16, hexAt_lower]
+theorem hexToUint32_lower (t : List Byte) : hexToUint32 (t.map asciiLower) = hexToUint32 t := by
+  simp only [hexToUint32, hexAt_lower]
+theorem hexToUint64_lower (t : List Byte) : hexToUint64 (t.map asciiLower) = hexToUint64 t := by
+  simp only [hexToUint64, hexAt_lower]
+
+/-! ## hexascii_decode: memory (buffer + explicit `int size`) -/
+
+/-- `size` rounded down to even, as the routine does it (`-3 % 2 == -1`: a
+negative odd size is not decremented, it leaves through `size <= 0`) -/
+def evenSize (size : Int) : Nat := if size ≤ 1 then 0 else size.toNat - size.toNat % 2
+
+/-- the routine completes iff the `evenSize size` characters and the
+`evenSize size / 2` output bytes are mapped; it then reads exactly the indices
+`[0, evenSize size)` and writes exactly `[0, evenSize size / 2)`; for
+`size ≤ 1` (zero, one, every negative value) it touches nothing -/
+theorem hexDecodeM_safe_iff (cs : List Byte) (size : Int) (cap : Nat) :
+    (hexDecodeM cs size cap).isSome ↔ (evenSize size ≤ cs.length ∧ evenSize size / 2 ≤ cap) := by
+  unfold hexDecodeM evenSize
+  by_cases h1 : size ≤ 1
+  · simp [h1, evened_le_one size h1]
+  · have hs : 0 < size := by omega
+    obtain ⟨n, rfl⟩ := Int.eq_ofNat_of_zero_le (Int.le_of_lt hs)
+    have hn : 2 ≤ n := by omega
+    obtain ⟨hpos, hcnt⟩ := evened_nat n hn
+    simp only [h1, if_false, hpos, hcnt, Int.toNat_natCast]
+    by_cases hok : n - n % 2 ≤ cs.length ∧ (n - n % 2) / 2 ≤ cap
+    · rw [decPairsM_ok cs cap (n / 2) 0 0 [] (by omega) (by omega)]
+      exact ⟨fun _ => hok, fun _ => rfl⟩
+    · rw [decPairsM_fault cs cap (n / 2) 0 0 [] (by omega) (by omega) (by omega)]
+      exact ⟨fun h => by simp at h, fun h => absurd h hok⟩
+
+/-- when it completes, the bytes written are the decoder's result on the first `size` characters -/
+theorem hexDecodeM_eq (cs : List Byte) (size : Nat) (cap : Nat) (h1 : size ≤ cs.length) (h2 : size / 2 ≤ cap) :
+    hexDecodeM cs size cap = some (hexDecode (cs.take size)) := by
+  unfold hexDecodeM
+  by_cases h : size ≤ 1
+  · rw [if_pos (evened_le_one _ (by omega)), hexDecode_eq]
+    match hc : cs.take size with
+    | [] => rfl
+    | [_] => rfl
+    | _ :: _ :: _ => have := congrArg List.length hc; simp at this; omega
+  · obtain ⟨hpos, hcnt⟩ := evened_nat size (by omega)
+    rw [if_neg hpos, hcnt, decPairsM_ok cs cap (size / 2) 0 0 [] (by omega) (by omega), hexDecode_eq]
+    simp only [List.nil_append, List.drop_zero]
+    by_cases hp : size % 2 = 0
+    · rw [show 2 * (size / 2) = size by omega]
+    · have e : cs.take size = cs.take (2 * (size / 2)) ++ [cs[2 * (size / 2)]'(by omega)] := by
+        have : size = 2 * (size / 2) + 1 := by omega
+        conv => lhs; rw [this]
+        rw [List.take_add_one, List.getElem?_eq_getElem (by omega)]
+        rfl
+      rw [e, decPairs_snoc_even _ _ (by rw [List.length_take]; omega)]
+
+example : hexDecodeM [0x61#8, 0x42#8, 0x33#8] 3 1 = some [0xAB#8] ∧ hexDecodeM [0x61#8, 0x42#8, 0x33#8] (-3) 0 = some []
+    ∧ hexDecodeM [0x61#8, 0x42#8, 0x33#8] 4 2 = none ∧ hexDecodeM [0x61#8, 0x42#8] 2 0 = none := by decide
+
+/-- `igris::hexascii_decode(std::string)` / `(igris::buffer)`: for EVERY
+string, of any length (the `(int)size()` conversion included), no access
+leaves the string or the `size()/2` bytes of the result -/
+theorem hexDecodeStrM_never_faults (s : List Byte) : (hexDecodeStrM s).isSome := by
+  have h : (hexDecodeM s (toInt32 s.length) (s.length / 2)).isSome := by
+    rw [hexDecodeM_safe_iff]
+    unfold evenSize toInt32
+    split
+    · simp
+    · have hle : (BitVec.ofNat 32 s.length).toInt ≤ s.length := by
+        rw [BitVec.toInt_eq_toNat_cond]
+        simp only [BitVec.toNat_ofNat]
+        split <;> omega
+      omega
+  obtain ⟨w, hw⟩ := Option.isSome_iff_exists.mp h
+  simp only [hexDecodeStrM, List.length_replicate, hw]
+  rfl
+
+/-- … and below `2^31` characters it returns the decoder's result -/
+theorem hexDecodeStrM_eq (s : List Byte) (h : s.length < 2 ^ 31) : hexDecodeStrM s = some (hexDecodeStr s) := by
+  have hi : toInt32 s.length = (s.length : Int) := by
+    unfold toInt32
+    rw [BitVec.toInt_eq_toNat_cond]
+    simp only [BitVec.toNat_ofNat]
+    split <;> omega
+  simp only [hexDecodeStrM, hexDecodeStr, hi, List.length_replicate]
+  rw [hexDecodeM_eq s s.length _ (Nat.le_refl _) (Nat.le_refl _), List.take_length]
+
+example : ([0x61#8, 0x42#8, 0x33#8] : List Byte).length < 2 ^ 31 := by decide
+
+/-! ## base64_decode on arbitrary text -/
+
+/-- what `base64_decode` does with EVERY text: it decodes the longest prefix
+of RFC table-1 letters and ignores everything from the first other character
+on (`=` wherever it stands, white space, bytes ≥ 0x80, `-`, `_`, NUL); the
+result is the whole bytes of the letters' concatenated six-bit values (an
+incomplete last byte is dropped, so missing padding is accepted) -/
+theorem b64Decode_eq_spec (s : List Byte) : b64Decode s = decodeWith stdAlphabet s := by
+  have hp : ∀ c ∈ lettersPrefix stdAlphabet s, (letterVal stdAlphabet c).isSome = true :=
+    fun c hc => mem_takeWhile_true _ _ c hc
+  rw [b64Decode, decLoop_takeWhile, decode_letters _ _ hp]
+  rfl
+
+/-- everything behind the first non-letter is ignored -/
+theorem b64Decode_stops (p rest : List Byte) (c : Byte) (hp : ∀ x ∈ p, (letterVal stdAlphabet x).isSome)
+    (hc : (letterVal stdAlphabet c).isSome = false) : b64Decode (p ++ c :: rest) = b64Decode p := by
+  rw [b64Decode_eq_spec, b64Decode_eq_spec]
+  have e1 : lettersPrefix stdAlphabet (p ++ c :: rest) = p := takeWhile_stop _ c rest hc p hp
+  have e2 : lettersPrefix stdAlphabet p = p := takeWhile_all _ p hp
+  simp only [decodeWith, e1, e2]
+
+example : (∀ x ∈ [0x51#8, 0x55#8], (letterVal stdAlphabet x).isSome) ∧ (letterVal stdAlphabet 0x3D#8).isSome = false
+    ∧ (letterVal stdAlphabet 0x20#8).isSome = false ∧ (letterVal stdAlphabet 0x2D#8).isSome = false := by decide
+
+/-- result length on every text: `⌊6n/8⌋` for `n` leading letters
+(`3·(n/4)` plus 0, 0, 1, 2 for a tail of 0, 1, 2, 3 letters) -/
+theorem b64Decode_length (s : List Byte) :
+    (b64Decode s).length = 6 * (lettersPrefix stdAlphabet s).length / 8 := by
+  rw [b64Decode_eq_spec, decodeWith, bytesOfBits_length, flatMap_letterBits_length]
+
+/-- the url-safe decoder: the same after `-`→`+`, `_`→`/` (it also takes `+` and `/`) -/
+theorem b64urlDecode_eq_spec (s : List Byte) : b64urlDecode s = decodeWith stdAlphabet (s.map urlUnsubst) := by
+  rw [b64urlDecode, b64Decode_eq_spec]
+
+/-! ## base64_decode: memory -/
+
+/-- for EVERY text shorter than `2^31` characters and every initial content of
+`char_array_4`: no store leaves the four slots of `char_array_4`, no read
+leaves `char_array_3`, `strchr` never returns NULL, the `int` index does not
+overflow; the result is the list model's -/
+theorem b64DecodeM_eq (s init : List Byte) (hi : init.length = 4) (h : s.length < 2 ^ 31) :
+    b64DecodeM s init = some (b64Decode s) := by
+  obtain ⟨arrM', i', h1, h2, h3, h4, h5⟩ :=
+    decLoopM_sim s 0 init 0 [] hi (by omega) (by intro c hc; simp at hc) (by omega)
+  unfold b64DecodeM b64Decode
+  rw [h1]
+  simp only [List.take_zero] at h2 ⊢
+  rw [decFinishM_sim arrM' i' _ h4 h3 h5, ← h2]
+
+theorem b64urlDecodeM_eq (s : List Byte) (h : s.length < 2 ^ 31) : b64urlDecodeM s = some (b64urlDecode s) := by
+  rw [b64urlDecodeM, b64urlDecode, b64DecodeM_eq _ _ rfl (by rw [List.length_map]; exact h)]
+
+example : ([0xAA#8, 0xBB#8, 0xCC#8, 0xDD#8] : List Byte).length = 4 ∧ ([0x51#8] : List Byte).length < 2 ^ 31 := by decide
+
+/-- the `int in_` index: a text of `2^31` letters or more is outside the
+routine's domain (signed overflow of `in_++`); the model faults exactly there -/
+theorem decLoopM_int_overflow (c : Byte) (rest arr ret : List Byte) (i : Nat)
+    (hc : (letterVal stdAlphabet c).isSome) (hi : i < 4) :
+    decLoopM (c :: rest) (2 ^ 31 - 1) arr i ret = none := by
+  have ht : (c == 0x3D#8 || !isBase64 c) = false := by rw [loopTest_iff, hc]; rfl
+  rw [decLoopM]
+  simp only [ht, Bool.false_eq_true, if_false]
+  rw [if_neg (by omega), if_pos (by omega)]
+
+example : (letterVal stdAlphabet 0x41#8).isSome ∧ (0 : Nat) < 4 := by decide
+
+/-! ## exceptions: which `std::string` growth calls can throw `std::length_error` -/
+
+/-- `igris::hexascii_encode(p, size)` throws exactly for `size·2 mod 2^64 ≥ 2^63` -/
+theorem hexEncodeStr_throws_iff (size : Nat) : hexEncodeStrThrows size ↔ 2 ^ 63 ≤ (size * 2) % 2 ^ 64 := by
+  unfold hexEncodeStrThrows hexEncodeStrReq strMaxSize
+  rw [decide_eq_true_iff]; omega
+
+/-- the other growth calls (`hexascii_decode`: `resize(size/2)`; `base64_encode`:
+`reserve(size·8/6+2)`) never exceed `max_size()`: their exception edges
+(gcov: hexascii_string.cpp 36, 44, base64.cpp 52; base64.cpp 118 = `ret +=`)
+are reachable by `std::bad_alloc` only -/
+theorem other_requests_below_max (size : Nat) :
+    hexDecodeStrReq size ≤ strMaxSize ∧ b64EncodeReq size ≤ strMaxSize := by
+  unfold hexDecodeStrReq b64EncodeReq strMaxSize
+  have hx : size * 8 % 2 ^ 64 < 2 ^ 64 := Nat.mod_lt _ (by decide)
+  generalize size * 8 % 2 ^ 64 = x at hx
+  constructor <;> omega
 
 end Igris.C18
